@@ -92,7 +92,7 @@ func checkC02(c *Ctx, r *Report) {
 	r2 := r.Rule("C02-R2", "E4/E3", 10, "read queue and decrypt under readLock, encrypt and wire writes under writeLock; handshake helpers only before the session escapes")
 	lockRule(c, r2, lockSpec{Pkg: nzP, Type: "secureSession", Mutex: "readLock", Guarded: []string{"qseek", "qbuf", "rlen"},
 		Exempt: map[string]string{
-			nzP + ".newSecureSession": "constructor",
+			nzP + ".newSecureSession":  "constructor",
 			ss("readHandshakeMessage"): "handshake: runs inside newSecureSession before the session is returned (who-may-call checked below)",
 			ss("runHandshake"):         "handshake (see readHandshakeMessage)",
 		}})
@@ -104,7 +104,10 @@ func checkC02(c *Ctx, r *Report) {
 		}
 		return false
 	}
-	for _, x := range []struct{ fn, lock string; callees []string }{
+	for _, x := range []struct {
+		fn, lock string
+		callees  []string
+	}{
 		{ss("Write"), ".writeLock", []string{ss("encrypt"), ss("writeMsgInsecure")}},
 		{ss("Read"), ".readLock", []string{ss("decrypt"), ss("readNextInsecureMsgLen"), ss("readNextMsgInsecure")}},
 	} {
@@ -251,7 +254,7 @@ func checkC02(c *Ctx, r *Report) {
 			return isC && k == 0
 		})
 		// the comparison reads the cursor after the advance: A = the stored new cursor value or a load of qseek, B = len(qbuf)
-		isCursor := func(v ssa.Value) bool { return isLoadOfField(ssT + ".qseek")(v) || isCursorSum(v, ssT+".qseek") }
+		isCursor := func(v ssa.Value) bool { return isLoadOfField(ssT+".qseek")(v) || isCursorSum(v, ssT+".qseek") }
 		lenQ := func(v ssa.Value) bool {
 			call, ok := v.(*ssa.Call)
 			return ok && calleeKey(call) == "builtin.len" && isLoadOfField(ssT+".qbuf")(call.Call.Args[0])
